@@ -30,6 +30,8 @@ func c14Start() *c14Worker {
 				return
 			case <-w.chans.PauseCh:
 				w.paused = true
+				verifrt.Settle() // native replay: a busy worker acknowledges a little later (every other try)
+				verifrt.Settle()
 				w.chans.ResumeCh <- struct{}{}
 				w.paused = false
 			case <-w.work:
@@ -103,6 +105,7 @@ func VerifH_C14_two_controllers() {
 	done := make(chan struct{}, 2)
 	ctl := func() {
 		Pause("a")
+		verifrt.Settle() // native replay: both controllers have asked for the pause before either resumes
 		Resume()
 		done <- struct{}{}
 	}
